@@ -132,6 +132,14 @@ def main():
                 if idx != sorted(idx):
                     violation("receptions-out-of-arrival-order", f"receptions {idx} are not in arrival order", k, w)
                 first_ms = h[idx[0]][2]
+                # a reception cannot join a group whose window the stream itself has already shown to be closed: if some
+                # arrival (of any frame, the first member included) at or after first arrival + window was read before
+                # it, the record had to leave then
+                for r_ in idx[1:]:
+                    closer = next((x for x in range(idx[0], r_) if h[x][2] >= first_ms + w), None)
+                    if closer is not None:
+                        violation("joined-after-window-closed", f"reception {r_} ({h[r_][2]} ms) is in the record first seen at {first_ms} ms although arrival {closer} ({h[closer][2]} ms) had already closed its window of {w} ms", k, w)
+                        break
                 if abs((ts - base) * 1000 - first_ms) > 0.5:
                     violation("timestamp-not-first-arrival", f"record timestamp {(ts - base) * 1000:.1f} ms, first arrival at {first_ms} ms", k, w)
                 if h[idx[0]][0] == 3:
